@@ -59,7 +59,10 @@ impl Program {
         // collect all instances of type templates from the symbol table
         let mut data_types = Vec::new();
         let mut codata_types = Vec::new();
-        for (name, (pol, type_args, xtors)) in symbol_table.types {
+        // the iteration order of a hash map differs between runs, so we sort the instances by name
+        let mut types: Vec<_> = symbol_table.types.into_iter().collect();
+        types.sort_by(|(name_fst, _), (name_snd, _)| name_fst.cmp(name_snd));
+        for (name, (pol, type_args, xtors)) in types {
             match pol {
                 Polarity::Data => {
                     let ctors = xtors
